@@ -35,7 +35,10 @@ class Model:
     def __init__(self, side):
         self.order = side['order']
         self.iters = side['iters']
-        self.pos = 0              # index into the flattened event sequence
+        # flattened event sequence of one run: (key, iteration); the prefix events happen before the loop (iteration -1)
+        self.events = [(k, -1) for k in side.get('prefix', [])] + [(k, it) for it in range(self.iters) for k in self.order]
+        self.pos = 0              # index into the event sequence
+        self.search_from = 0
         self.sets = {'L': {}, 'F': {}, 'I': {}}   # kind -> key -> record dict(cond, hit, log, hits)
         self.expected_logs = []
         self.removed = {}         # key -> when the record that was replaced away had been created
@@ -49,27 +52,34 @@ class Model:
     def restart(self):
         self.pos = 0
 
+    def position_of(self, key, it):
+        """index of the first occurrence of (location, iteration) at or after the point where the last search started"""
+        for p in range(self.search_from, len(self.events)):
+            k, i = self.events[p]
+            if k == key and max(i, 0) == it:
+                return p
+        return None
+
     def next_stop(self):
         """advance to the next event at which the program must stop; returns (key, iteration) or None (runs to exit)"""
-        total = self.iters * len(self.order)
-        while self.pos < total:
-            it, j = divmod(self.pos, len(self.order))
-            key = self.order[j]
+        self.search_from = self.pos
+        while self.pos < len(self.events):
+            key, it = self.events[self.pos]
             self.pos += 1
             rec = self.sets[key[0]].get(key)
             if rec is None:
                 continue
             rec['hits'] += 1
-            flag = (it % 2 == 0)
+            flag = (it >= 0 and it % 2 == 0)       # ZQ_FLAG is false before the loop
             cond = rec.get('cond')
             if cond is not None:
-                val = {'flag': flag, 'true': True, 'false': False, '1': True, '0': False}[cond]
+                val = {'ZQ_FLAG': flag, 'true': True, 'false': False, '1': True, '0': False}[cond]
                 if not val:
                     continue
             if not hit_matches(rec.get('hit'), rec['hits']):
                 continue
             if rec.get('log') is not None:
-                self.expected_logs.append(rec['log'].replace('{i}', str(it)))
+                self.expected_logs.append(rec['log'].replace('{ZQ_ITER}', str(max(it, 0))))
                 continue
             return key, it
         return None
@@ -87,9 +97,14 @@ def run_case(spec):
         for s_, a in syms.items():
             if re.search(r'\d+' + name + r'17h', s_):
                 entry['I_' + name] = a + b.base
+    iter_addr = next((a for s_, a in syms.items() if s_ == 'ZQ_ITER'), None)
+    if iter_addr is None:
+        v.inconc('no-iteration-symbol')
+        return v.export()
+    iter_addr += b.base
     lines = side['lines']
     line2key = {lines['F0_fa'] - 1: 'I_fa', lines['F0_fb'] - 1: 'I_fb', lines['F0_fa']: 'F_fa', lines['F0_fb']: 'F_fb', lines['F0_gen']: 'F_gen', lines['L_fa']: 'L_fa', lines['L_fb']: 'L_fb',
-                lines['L_gen']: 'L_gen', lines['L_inl']: 'L_inl'}
+                lines['L_gen']: 'L_gen', lines['L_inl']: 'L_inl', lines['L_sv']: 'L_sv'}
     ctx = {'binary': b.path}
     try:
         d = Dap()
@@ -97,6 +112,10 @@ def run_case(spec):
         v.inconc('adapter-did-not-start')
         return v.export()
     M = Model(side)
+    # clean scenarios: the only request made before the program runs is a plain breakpoint on a line that is executed once
+    # before the loop and stays in every later set; every record that decides a stop is then created while the program runs
+    clean = rng.random() < 0.7
+    ctx['start'] = 'clean' if clean else 'free'
     hist = []
     timing_classes = set()
 
@@ -104,21 +123,30 @@ def run_case(spec):
         o = {}
         k = rng.random()
         if k < 0.25 and allow_cond:
-            o['cond'] = rng.choice(['flag', 'flag', 'true', 'false'])
+            o['cond'] = rng.choice(['ZQ_FLAG', 'ZQ_FLAG', 'true', 'false'])
         elif k < 0.45:
             o['hit'] = rng.choice(['2', '>=3', '>1', '<3', '<=2', '==1', '1'])
         elif k < 0.6:
-            o['log'] = f'zqlog{rng.randint(0, 99)} {{i}}'
+            o['log'] = f'zqlog{rng.randint(0, 99)} {{ZQ_ITER}}'
         return o
 
     def send_sets(when):
         """send a random subset of set-requests; every request replaces the previous set of its kind"""
         timing_classes.add(when)
         kinds = rng.sample(['L', 'F', 'I'], k=rng.randint(1, 3))
+        if clean and when == 'before-start':
+            kinds = ['L']
         for kind in kinds:
             if kind == 'L':
                 keys = rng.sample(['L_fa', 'L_fb', 'L_gen', 'L_inl'], k=rng.randint(0, 3))
+                if clean and when == 'before-start':
+                    keys = []
                 recs = {k: opts() for k in keys}
+                if clean:
+                    # the line that gives the first stop is part of every set of this file (plain, so that the record made
+                    # before the program runs never decides anything)
+                    keys = keys + ['L_sv']
+                    recs['L_sv'] = {}
                 bps = []
                 for k in keys:
                     o = recs[k]
@@ -206,10 +234,12 @@ def run_case(spec):
         st = d.request('stackTrace', {'threadId': body.get('threadId'), 'startFrame': 0, 'levels': 1})
         fr = (((st or {}).get('body') or {}).get('stackFrames') or [{}])[0]
         ip = fr.get('instructionPointerReference')
+        observe.frame = fr
         try:
             ipv = int(ip, 16) if ip else None
         except ValueError:
             ipv = None
+        observe.iter = read_iter(body.get('threadId'))
         for k, a in entry.items():
             if ipv == a:
                 return 'stop', k
@@ -218,6 +248,16 @@ def run_case(spec):
             return 'stop', key
         return 'unknown', {'frame': fr, 'body': body}
     observe.start = 0
+    observe.iter = None
+
+    def read_iter(tid):
+        """the program's own iteration counter, read from /proc/<pid>/mem (the program is single-threaded: thread id = pid)"""
+        try:
+            with open(f'/proc/{int(tid)}/mem', 'rb', buffering=0) as f:
+                f.seek(iter_addr)
+                return int.from_bytes(f.read(8), 'little')
+        except (OSError, TypeError, ValueError):
+            return None
 
     try:
         d.request('initialize', {'adapterID': 'bugstalker'})
@@ -225,7 +265,7 @@ def run_case(spec):
         if r is None or not r.get('success'):
             v.inconc('launch-failed', str(r)[:200])
             return v.export()
-        if rng.random() < 0.7:
+        if clean or rng.random() < 0.7:
             send_sets('before-start')
         observe.start = len(d.log)
         d.request('configurationDone')
@@ -242,6 +282,9 @@ def run_case(spec):
                 continue
             exp = M.next_stop()
             v.count('stops_compared')
+            if os.environ.get('VERIF_C13_TRACE') and what == 'stop':
+                ev_ = d.request('evaluate', {'expression': 'i', 'frameId': getattr(observe, 'frame', {}).get('id'), 'context': 'watch'})
+                print('TRACE', idx, 'observed', key, 'expected', exp, 'i=', ((ev_ or {}).get('body') or {}).get('result'), flush=True)
             if what == 'timeout':
                 v.inconc('no-event-after-resume', dict(ctx, history=hist[-4:]))
                 break
@@ -251,20 +294,38 @@ def run_case(spec):
                 break
             obs = None if what == 'exit' else key
             expk = exp[0] if exp else None
-            if obs != expk:
+            # which occurrence of the location: the program's own iteration counter (0 before the loop)
+            obs_it = observe.iter if obs is not None else None
+            exp_it = max(exp[1], 0) if exp else None
+            if obs is not None and obs_it is None:
+                v.inconc('iteration-counter-unreadable', dict(ctx, history=hist[-4:]))
+                break
+            v.count('stops_identified_by_location_and_iteration')
+            if (obs, obs_it) != (expk, exp_it):
                 active = {k for kind in M.sets.values() for k in kind}
-                if obs is not None and obs not in active:
-                    cls = 'stop-at-location-not-in-latest-sets'
-                elif obs is None or (expk is not None and obs != expk):
-                    cls = 'expected-stop-missing' if expk is not None and (obs is None or M.order.index(obs) != M.order.index(expk)) else 'option-not-honoured'
-                else:
-                    cls = 'option-not-honoured'
                 rec = None
                 for kind in M.sets.values():
                     if obs in kind:
                         rec = kind[obs]
-                if obs is not None and obs in active and rec and (rec.get('cond') or rec.get('hit') or rec.get('log')):
-                    cls = 'option-not-honoured'
+                if obs is not None and obs not in active:
+                    cls = 'stop-at-location-not-in-latest-sets'
+                elif obs is None:
+                    cls = 'expected-stop-missing'
+                else:
+                    # the observed location is in the latest sets: did the program stop before the stop the model expects
+                    # (at an occurrence whose options say "do not stop") or did it run past the expected stop?
+                    p_obs = M.position_of(obs, obs_it)
+                    if p_obs is not None and p_obs < M.pos - 1 or exp is None:
+                        cls = 'option-not-honoured'
+                    else:
+                        cls = 'expected-stop-missing'
+                        rec = None
+                if os.environ.get('VERIF_C13_TRACE'):
+                    for m in d.sent[-14:]:
+                        print('TRACE-SENT', idx, str(m)[:400], flush=True)
+                    for m in d.log[-40:]:
+                        if m.get('type') != 'response' or m.get('command') not in ('stackTrace', 'evaluate'):
+                            print('TRACE-LOG', idx, str(m)[:300], flush=True)
                 culprit = obs if obs is not None else expk
                 multi = 'multi-location' if culprit and culprit.endswith('_gen') else 'single-location'
                 if cls == 'stop-at-location-not-in-latest-sets':
@@ -274,8 +335,8 @@ def run_case(spec):
                 born = 'created-before-start' if born == 'before-start' else ('never-set' if born == 'never-set' else 'created-while-running')
                 v.violation(f'c13:{cls}:{multi}:{born}',
                             'the program does not stop at exactly the locations of the latest breakpoint sets with their options',
-                            dict(ctx, observed=obs, expected=expk, iteration=exp[1] if exp else None, sets={k: dict(x) for k, x in M.sets.items()},
-                                 history=hist[-5:]))
+                            dict(ctx, observed=obs, observed_iteration=obs_it, expected=expk, iteration=exp[1] if exp else None, sets={k: dict(x) for k, x in M.sets.items()},
+                                 history=hist[-5:], full_history=hist, case_index=idx))
                 break
             if what == 'exit':
                 break
@@ -295,12 +356,16 @@ def run_case(spec):
             d.request('continue', {'threadId': 1})
         # log point outputs
         d.quiesce(0.3, 2.0)
+        if os.environ.get('VERIF_C13_TRACE'):
+            for m in d.log:
+                if m.get('type') == 'event' and m.get('event') == 'output' and (m.get('body') or {}).get('category') == 'console':
+                    print('TRACE-OUT', idx, repr((m.get('body') or {}).get('output'))[:300], flush=True)
         outs = [((m.get('body') or {}).get('output') or '').strip() for m in d.log if m.get('type') == 'event' and m.get('event') == 'output'
                 and 'zqlog' in ((m.get('body') or {}).get('output') or '')]
         v.count('logpoint_outputs_expected', len(M.expected_logs))
         if not v.violations and [o for o in outs] != M.expected_logs:
             v.violation('c13:logpoint-outputs-differ', 'log points did not produce exactly the expected outputs',
-                        dict(ctx, got=outs[:10], expected=M.expected_logs[:10], history=hist[-5:]))
+                        dict(ctx, got=outs[:10], expected=M.expected_logs[:10], history=hist[-5:], full_history=hist, case_index=idx))
         d.session_over_at = d.seq + 1
         d.request('disconnect', {'terminateDebuggee': True}, timeout=10)
         v.count('scenarios')
@@ -326,7 +391,7 @@ def main(tier):
         {'scenarios': 600, 'stops_compared': 6000, 'set_requests': 2500, 'timing_before-start': 100, 'timing_at-stop': 100, 'timing_after-restart': 10}
     V.assumptions = ['the program is deterministic and its per-iteration event order is fixed by the generator',
                      'data breakpoints are judged at the API (C14): their register state is not observable from outside the adapter']
-    n = 60 if tier == 'quick' else 800
+    n = 120 if tier == 'quick' else 1000
     specs = [(i, tier) for i in range(n)]
     for res in common.safe_map(run_case, specs, procs=6):
         V.merge(res)
